@@ -44,7 +44,23 @@ func globalStructLiteral(g *ssa.Global) map[string]int64 {
 // whatever the base.
 func bindFieldLoadsByName(f *ssa.Function, vals map[string]consteval.Val) consteval.Env {
 	env := consteval.Env{}
-	for _, g := range withClosures(f) {
+	// f, its closures, and the helpers of its package it calls (two levels)
+	scope := withClosures(f)
+	seen := map[*ssa.Function]bool{}
+	for _, g := range scope {
+		seen[g] = true
+	}
+	for i := 0; i < len(scope) && len(scope) < 24; i++ {
+		allInstrs(scope[i], func(ins ssa.Instruction) {
+			if call, ok := ins.(*ssa.Call); ok {
+				if g := call.Call.StaticCallee(); g != nil && g.Blocks != nil && g.Pkg == f.Pkg && !seen[g] {
+					seen[g] = true
+					scope = append(scope, g)
+				}
+			}
+		})
+	}
+	for _, g := range scope {
 		allInstrs(g, func(ins ssa.Instruction) {
 			v, ok := ins.(ssa.Value)
 			if !ok {
